@@ -1,0 +1,91 @@
+//go:build verif
+// +build verif
+
+package fit
+
+import (
+	"reflect"
+	"time"
+)
+
+// Read-only exports for the verification harness in /verif.
+// Compiled only with -tags verif; nothing here is reachable otherwise.
+
+// VerifField is a copy of one entry of the profile field lookup table.
+type VerifField struct {
+	Mesg   MesgNum
+	Slot   int // index in the 256-wide row (the field number used for lookup)
+	Num    byte
+	Sindex int
+	Base   byte // types.Base as a byte
+	Array  bool
+	Kind   byte // types.Kind as a byte
+	Length byte
+	Raw    uint16 // the packed types.Fit value
+}
+
+// VerifFields returns a copy of every non-nil entry of the lookup table.
+func VerifFields() []VerifField {
+	var out []VerifField
+	for m := range _fields {
+		for slot, f := range _fields[m] {
+			if f == nil {
+				continue
+			}
+			out = append(out, VerifField{
+				Mesg:   MesgNum(m),
+				Slot:   slot,
+				Num:    f.num,
+				Sindex: f.sindex,
+				Base:   byte(f.t.BaseType()),
+				Array:  f.t.Array(),
+				Kind:   byte(f.t.Kind()),
+				Length: f.length,
+				Raw:    uint16(f.t),
+			})
+		}
+	}
+	return out
+}
+
+// VerifKnownMesgNums returns the message numbers the decoder treats as known.
+func VerifKnownMesgNums() []MesgNum {
+	out := make([]MesgNum, 0, len(knownMsgNums))
+	for m, ok := range knownMsgNums {
+		if ok {
+			out = append(out, m)
+		}
+	}
+	return out
+}
+
+// VerifTableLens returns the lengths of the lookup, type and constructor tables.
+func VerifTableLens() (fields, types, ctors int) {
+	return len(_fields), len(msgsTypes), len(newMesgFuncs)
+}
+
+// VerifMesgType returns the registered Go type for a message number (nil if none).
+func VerifMesgType(m MesgNum) reflect.Type {
+	if int(m) >= len(msgsTypes) {
+		return nil
+	}
+	return msgsTypes[m]
+}
+
+// VerifNewMesg returns the all-invalid message for m, or an invalid Value if
+// no constructor is registered.
+func VerifNewMesg(m MesgNum) reflect.Value {
+	if int(m) >= len(newMesgFuncs) || newMesgFuncs[m] == nil {
+		return reflect.Value{}
+	}
+	return newMesgFuncs[m]().Elem()
+}
+
+// VerifGlobalMesgNum exposes the reverse lookup used by the encoder.
+func VerifGlobalMesgNum(t reflect.Type) MesgNum { return getGlobalMesgNum(t) }
+
+// VerifDecodeDateTime exposes the unexported time conversion.
+func VerifDecodeDateTime(dt uint32) time.Time { return decodeDateTime(dt) }
+
+// VerifEncodeTime exposes the unexported time conversion.
+func VerifEncodeTime(t time.Time) uint32 { return encodeTime(t) }
